@@ -40,6 +40,7 @@ type consBal struct {
 }
 
 type provBal struct {
+	allowed  map[string]map[string]bool // consumer -> denoms payable for it (registered by governance or allow-listed by it)
 	pool     sdk.Coins
 	distr    sdk.Coins
 	credits  map[string]sdk.DecCoins // consumer -> credited rewards (all denoms)
@@ -76,6 +77,19 @@ func (m *C16) takeProvBal(w *world.World) *provBal {
 	denoms := map[string]bool{}
 	for _, c := range pb.pool {
 		denoms[c.Denom] = true
+	}
+	pb.allowed = map[string]map[string]bool{}
+	global := k.GetAllConsumerRewardDenoms(ctx)
+	for _, id := range w.ConsumerIDs() {
+		pb.allowed[id] = map[string]bool{}
+		for _, d := range global {
+			pb.allowed[id][d] = true
+		}
+		if own, err := k.GetAllowlistedRewardDenoms(ctx, id); err == nil {
+			for _, d := range own {
+				pb.allowed[id][d] = true
+			}
+		}
 	}
 	for _, id := range w.ConsumerIDs() {
 		var dc sdk.DecCoins
@@ -183,6 +197,12 @@ func (m *C16) After(w *world.World, a *world.Action, r *world.StepResult) *Viola
 			return violf(P, "credit-created", "consumer %s: credit went from %s to %s although only %s arrived in this block", id, before, after, recvNow[id])
 		}
 		if !diff.IsZero() {
+			// only credits in denoms registered by governance or allow-listed by this consumer are paid out
+			for _, dcoin := range diff {
+				if !pre.allowed[id][dcoin.Denom] {
+					return violf(P, "unlisted-denom-paid", "consumer %s: credit of %s was paid out although the denom is neither registered by governance nor allow-listed by that consumer", id, dcoin)
+				}
+			}
 			creditDrop = creditDrop.Add(diff...)
 			if len(allocated[id]) == 0 && k.ComputeConsumerTotalVotingPower(ctx, id) != 0 {
 				// the zero-power branch emits no event; otherwise an allocation event must exist
